@@ -70,7 +70,11 @@ def generate(rng, focus, tier="quick"):
         else:
             a = rng.choice(assets)
             last[a] = _p(rng, last[a])
-            ops.append({"k": "append", "sig": rng.choice(KINDS), "asset": a, "price": last[a]})
+            pr = last[a]
+            if rng.random() < 0.1 and pr >= 1:
+                pr = int(pr)                       # a whole price handed over as a Python int
+                last[a] = float(pr)
+            ops.append({"k": "append", "sig": rng.choice(KINDS), "asset": a, "price": pr})
     return {"world": NAME, "cfg": {"assets": assets, "lookbacks": lookbacks, "dynamic": dynamic,
                                    "entries": entries, "start": start}, "ops": ops}
 
